@@ -184,13 +184,20 @@ type outcome struct {
 	launchErr error
 	running   bool
 	runErr    error
-	injErr    map[string]error // tag -> error returned to the injecting receiver
+	injErr    map[string]error // tag -> error returned to the injecting receiver (last attempt)
 	injected  int
+	attempts  map[string][]kit.Attempt
+	readOnly  int
+	resends   int
 }
 
-func execute(env *kit.Env, yaml string, rng *rand.Rand, rich bool) outcome {
+// execute runs the collector and injects one payload at every receiver instance. plan says how the receiver sends
+// it: as a fresh mutable payload, marked read-only (a receiver that keeps its payload), and re-sent — the very same
+// object — after a downstream error (consumerretry style).
+func execute(env *kit.Env, yaml string, rng *rand.Rand, rich bool, plan func(tag string) kit.SendOptions) outcome {
 	var o outcome
 	o.injErr = map[string]error{}
+	o.attempts = map[string][]kit.Attempt{}
 	run, err := env.Launch(yaml)
 	if err != nil {
 		o.launchErr = err
@@ -206,9 +213,16 @@ func execute(env *kit.Env, yaml string, rng *rand.Rand, rich bool) outcome {
 		if rich {
 			prng = rng
 		}
-		_, err := in.Inject(context.Background(), prng)
-		o.injErr[in.Tag()] = err
+		so := plan(in.Tag())
+		p := kit.NewPayload(in.Signal, kit.Msg{Tag: in.Tag()}, prng)
+		at := in.SendPayload(context.Background(), p, so)
+		o.attempts[in.Tag()] = at
+		o.injErr[in.Tag()] = at[len(at)-1].Err
 		o.injected++
+		if so.MarkReadOnly {
+			o.readOnly++
+		}
+		o.resends += len(at) - 1
 	}
 	o.runErr = run.Stop()
 	return o
@@ -298,7 +312,25 @@ func runCase(c *driver.Ctx, class string, t *kit.Topology, rng *rand.Rand) {
 	var pv any
 	var pstack string
 	stuck := c.Guard(60*time.Second, kit.Seq, func() {
-		pv, pstack = driver.Catch(func() { o = execute(env, yaml, rng, rng.Intn(4) == 0) })
+		sendMode := rng.Intn(3) // 0: fresh mutable payloads only; 1, 2: a third of the receivers send read-only / re-send
+		var exPlan *kit.Expectation
+		plan := func(tag string) kit.SendOptions {
+			var so kit.SendOptions
+			if sendMode == 0 {
+				return so
+			}
+			so.MarkReadOnly = rng.Intn(3) == 0
+			if rng.Intn(3) == 0 {
+				if exPlan == nil {
+					exPlan = t.Expect() // only called while the collector runs: the configuration is valid
+				}
+				if len(exPlan.RouteRefusals[tag]) == 0 { // the refusal count of a router is per send; keep that oracle exact
+					so.Resend = 1 + rng.Intn(2)
+				}
+			}
+			return so
+		}
+		pv, pstack = driver.Catch(func() { o = execute(env, yaml, rng, rng.Intn(4) == 0, plan) })
 	})
 	w := witness{Class: class, YAML: yaml, Verdict: v}
 	if stuck != nil {
@@ -380,6 +412,13 @@ func runCase(c *driver.Ctx, class string, t *kit.Topology, rng *rand.Rand) {
 		c.Violation("run-error", "Run returned an error although no component fails in Start/Shutdown: "+o.runErr.Error(), w, "err", errClass(o.runErr))
 	}
 	ex := t.Expect()
+	for tag, at := range o.attempts {
+		if len(at) > 1 {
+			ex.ApplyAttempts(tag, at)
+		}
+	}
+	c.Observe("injections_sent_read_only", int64(o.readOnly))
+	c.Observe("injections_resent_after_an_error", int64(o.resends))
 	insts := t.ConnInstances()
 	c.Observe("paths_expected", int64(len(ex.Paths)))
 	depth := 0
@@ -611,7 +650,7 @@ func pipeIDs(t *kit.Topology, idx []int) []string {
 	return out
 }
 
-// addRouting appends a routing connector with N = 2..4 downstream pipelines to a valid base: one (or
+// addRouting appends a routing connector with N = 1..4 downstream pipelines to a valid base: one (or
 // two) source pipelines -> connector -> N pipelines of one destination signal (mostly the same
 // signal), with a route of the given class for that destination signal.
 func addRouting(rng *rand.Rand, base *kit.Topology, class string) *kit.Topology {
@@ -666,7 +705,11 @@ func addRouting(rng *rand.Rand, base *kit.Topology, class string) *kit.Topology 
 			t.Pipelines = append(t.Pipelines, kit.Pipeline{Signal: s2, Name: "rt_src2", Receivers: []string{"krecv/2"}, Exporters: []string{id}})
 		}
 	}
-	for k, n := 0, 2+rng.Intn(3); k < n; k++ {
+	nd := 2 + rng.Intn(3)
+	if rng.Intn(4) == 0 {
+		nd = 1 // a router in front of a single destination pipeline is still a router
+	}
+	for k, n := 0, nd; k < n; k++ {
 		p := kit.Pipeline{Signal: d, Name: fmt.Sprintf("rt_d%d", k), Receivers: []string{id}, Processors: procs(), Exporters: exps()}
 		if rng.Intn(4) == 0 {
 			p.Receivers = append(p.Receivers, "krecv/1")
@@ -810,7 +853,7 @@ func main() {
 	driver.Main(driver.Spec{
 		ID:    "C09",
 		Level: "exploration",
-		Rule: "a case is one seeded random service configuration (1–6 pipelines over the 4 signals, receivers/processors/exporters drawn from small id pools (a quarter of the cases with pools and pipeline names that differ only in letter case), kshared multi-signal receivers, connectors of 5 factory types with different supported signal pairs placed constructively incl. chains, fan-in, fan-out; 20 % carry a routing connector with 2–4 downstream pipelines that asks its router for a full / proper-subset / repeated-id (N entries) / unconnected-pipeline (N entries) / empty route; 40 % carry one injected defect: connector ring of length 1–4, back edge, unsupported pair, connector only as exporter/receiver) run through otelcol.NewCollector(...).Run with one payload injected at every receiver instance; " +
+		Rule: "a case is one seeded random service configuration (1–6 pipelines over the 4 signals, receivers/processors/exporters drawn from small id pools (a quarter of the cases with pools and pipeline names that differ only in letter case), kshared multi-signal receivers, connectors of 5 factory types with different supported signal pairs placed constructively incl. chains, fan-in, fan-out; 20 % carry a routing connector with 1–4 downstream pipelines that asks its router for a full / proper-subset / repeated-id (N entries) / unconnected-pipeline (N entries) / empty route; 40 % carry one injected defect: connector ring of length 1–4, back edge, unsupported pair, connector only as exporter/receiver) run through otelcol.NewCollector(...).Run with one payload injected at every receiver instance; " +
 			"distinct = canonical configuration (pipelines with component lists and referenced configs); non-trivial = at least 2 pipelines or a connector, or an invalid configuration",
 		Assumptions: []string{
 			"the reference model (lib/kit/oracle.go) computes validity, connector instances, path multisets, create counts from the configuration only; it shares no code with service/internal/graph",
